@@ -34,3 +34,53 @@ def mkbytes(items):
     if shims.any_sym(items):
         return shims.SymBytes(items)
     return bytes(items)
+
+
+def newdict(ctx):
+    """An empty mapping that tolerates symbolic keys in symbolic mode and is a
+    plain dict in concrete mode."""
+    if ctx.symbolic:
+        from symx import shims
+        return shims.SymKeyDict()
+    return {}
+
+
+def registry_digest():
+    """Structural digest of every piece of class-level state decode could
+    touch: registries and the __dict__ of every Command/Address class."""
+    import dali.command as C
+    import dali.address as A
+    import dali.gear.general as gg
+    import dali.device.general as dg
+    import dali.device.pushbutton as pb
+
+    def dval(v):
+        if isinstance(v, dict):
+            return ("dict", tuple(sorted((repr(k), dval(x)) for k, x in dict.items(v))))
+        if isinstance(v, (list, tuple, set, frozenset)):
+            items = [dval(x) for x in v]
+            if isinstance(v, (set, frozenset)):
+                items = sorted(map(repr, items))
+            return (type(v).__name__, tuple(items))
+        if isinstance(v, type):
+            return ("cls", v.__module__, v.__qualname__, id(v))
+        if isinstance(v, (int, str, bool, type(None), bytes, float)):
+            return v
+        return ("obj", type(v).__name__, id(v))
+
+    seen, out = set(), []
+
+    def walk(cls):
+        if cls in seen:
+            return
+        seen.add(cls)
+        out.append((cls.__module__, cls.__qualname__,
+                    tuple(sorted((k, dval(v)) for k, v in vars(cls).items()
+                                 if not k.startswith("__") or k in ("__dict__",)))))
+        for s in cls.__subclasses__():
+            walk(s)
+    walk(C.Command)
+    walk(C.Response)
+    walk(A.Address)
+    walk(A.Instance)
+    return hash(tuple(out))
